@@ -430,4 +430,63 @@ theorem inString_hi (s : Scanner) (b : UInt8) (hs : s.step = .inString) (hb : hi
   unfold step
   simp only [hs, g1, g2, g3, Bool.false_eq_true, if_false]
 
+
+/-! ### `compactIter` without the monad -/
+
+def flushP (src : Bytes) (st : CompactSt) (i : Nat) : CompactSt :=
+  if st.start < i then { st with out := st.out ++ (src.drop st.start).take (i - st.start) } else st
+
+def pre1 (src : Bytes) (escape : Bool) (st : CompactSt) (i : Nat) (c : UInt8) : CompactSt :=
+  if escape && (c == 0x3C || c == 0x3E || c == 0x26) then
+    { flushP src st i with out := (flushP src st i).out ++ esc6 c, start := i + 1 }
+  else st
+
+def pre2 (src : Bytes) (escape : Bool) (st : CompactSt) (i : Nat) (c : UInt8) (next : Bytes) : CompactSt :=
+  match next with
+  | n1 :: n2 :: _ =>
+    if escape && c == 0xE2 && n1 == 0x80 && (n2 &&& 0xFE) == 0xA8 then
+      { flushP src st i with out := (flushP src st i).out ++ esc2028 n2, start := i + 3 }
+    else st
+  | _ => st
+
+def post (src : Bytes) (st : CompactSt) (i : Nat) (sc : Scanner) (v : Op) : CompactSt :=
+  if v.geSkipSpace then
+    if v == .error then { st with scan := sc, stop := true }
+    else { flushP src { st with scan := sc } i with start := i + 1 }
+  else { st with scan := sc }
+
+@[simp] theorem flushP_scan (src : Bytes) (st : CompactSt) (i : Nat) : (flushP src st i).scan = st.scan := by
+  unfold flushP; split <;> rfl
+@[simp] theorem flushP_start (src : Bytes) (st : CompactSt) (i : Nat) : (flushP src st i).start = st.start := by
+  unfold flushP; split <;> rfl
+@[simp] theorem flushP_stop (src : Bytes) (st : CompactSt) (i : Nat) : (flushP src st i).stop = st.stop := by
+  unfold flushP; split <;> rfl
+
+theorem slice_ok (src : Bytes) (a b : Nat) (h1 : a ≤ b) (h2 : b ≤ src.length) :
+    slice src a b = .ok ((src.drop a).take (b - a)) := by
+  unfold slice; rw [if_pos ⟨h1, h2⟩]
+
+theorem compactIter_eq (src : Bytes) (escape : Bool) (st : CompactSt) (i : Nat) (c : UInt8) (next : Bytes)
+    (hi : i ≤ src.length) :
+    compactIter src escape st i c next =
+      match step st.scan c with
+      | .ok (sc, v) => .ok (post src (pre2 src escape (pre1 src escape st i c) i c next) i sc v)
+      | .err e => .err e
+      | .panic m => .panic m := by
+  have hsl : ∀ a : Nat, a < i → slice src a i = .ok ((src.drop a).take (i - a)) :=
+    fun a h => slice_ok src a i (Nat.le_of_lt h) hi
+  have hn1 : ¬ (i + 1 < i) := by omega
+  have hn3 : ¬ (i + 3 < i) := by omega
+  unfold compactIter pre2 pre1 post flushP
+  rcases next with _ | ⟨n1, _ | ⟨n2, tl⟩⟩
+  all_goals (by_cases hc1 : (escape && (c == 0x3C || c == 0x3E || c == 0x26)) = true)
+  all_goals (try by_cases hc2 : (escape && c == 0xE2 && n1 == 0x80 && (n2 &&& 0xFE) == 0xA8) = true)
+  all_goals (by_cases hlt : st.start < i)
+  all_goals (cases hstep : step st.scan c with
+    | err e => simp [hc1, hlt, hsl, hstep, hn1, hn3, esc6, esc2028, *]
+    | panic m => simp [hc1, hlt, hsl, hstep, hn1, hn3, esc6, esc2028, *]
+    | ok p =>
+      obtain ⟨sc, v⟩ := p
+      cases v <;> simp [hc1, hlt, hsl, hstep, hn1, hn3, esc6, esc2028, Op.geSkipSpace, *])
+
 end UgoVerif.Proofs.Json
